@@ -241,7 +241,7 @@ def run(ctx):
     ctx.assumptions = ['kernel timestamp granularity is not modelled; mtimes are set explicitly, at whole seconds and at millisecond offsets inside the second of the TIMESTAMP (float rounding of st_mtime below a microsecond is not exercised)']
     drv = common.Driver()
     try:
-        for i in range(120 if ctx.tier == "quick" else 2500):
+        for i in range(200 if ctx.tier == "quick" else 2500):
             one_history(ctx, drv)
     finally:
         drv.close()
